@@ -593,9 +593,10 @@ type orderVerdict struct {
 }
 
 // judgeOrder applies the order oracle to one run's output. The container's own enumeration
-// (plain foreach, the "canary") is compared with the model; every other sink is compared with
-// the canary of the same run, so that a wrong or unstable store order is reported once, as
-// the store's, and a sink is blamed only for disagreeing with the store it was given.
+// (plain foreach, the "canary") is compared with the model; the other sinks are judged only in
+// runs in which the store itself is in order (for containers without a model — derived
+// classes — against the canary of the same run), so that a wrong or unstable store order is
+// reported once, as the store's.
 func judgeOrder(p *orderProg, out string) []orderVerdict {
 	labels := splitLabels(out)
 	var res []orderVerdict
@@ -618,11 +619,19 @@ func judgeOrder(p *orderProg, out string) []orderVerdict {
 				v.status = "violation"
 			}
 			res = append(res, v)
-			if !permutationOf(ref, want) {
+			if v.status == "violation" {
+				// the store itself is out of order in this run: that is reported once, as the
+				// store's; a sink cannot be judged fairly against either sequence (one that lists
+				// declared properties in declaration order would be blamed for being right)
+				continue
+			}
+			if !sameSeq(ref, want) {
 				ref = want // the canary itself is unusable: fall back to the model
 			}
 		}
-		if len(ref) == 0 {
+		if len(ref) == 0 || !haveModel {
+			// no model (derived classes: the place of inherited properties is left open): the
+			// block takes part in the determinism monitor only
 			continue
 		}
 		for _, sn := range b.sinks {
